@@ -314,7 +314,7 @@ def rule_helpers(ctx, repo):
     for n in ast.walk(gi.node):
         if isinstance(n, ast.comprehension):
             conds.extend(canon_guard(i_, repo, gi.module) for i_ in n.ifs)
-    hit = [g for g in conds if _eq2(re.sub(r'\b\w+\[:6\]', 'script[:6]', re.sub(r'len\(\w+\)', 'len(script)', g)), want_g) is True]
+    hit = [g for g in conds if _eq2(re.sub(r'\b[\w.]+\[:6\]', 'script[:6]', re.sub(r'len\([\w.]+\)', 'len(script)', g)), want_g) is True]
     if hit:
         r.ok('commitment-index', gi.site, 'last output of at least 38 bytes starting with the magic')
     elif any('[:6]' in g or 'len(' in g for g in conds) and ('aa!' in src_gi or 'MAGIC' in src_gi or '6]' in src_gi) and any('37' in g or '38' in g or '[:6]' in g for g in conds):
@@ -341,6 +341,27 @@ def rule_helpers(ctx, repo):
             r.check(bool(asg), 'commitment-index:last-match', common.site_of(gi, lp_), 'every match overwrites the position: the last one wins', 'no position is recorded in the scan')
         else:
             r.undecided('commitment-index:last-match', common.site_of(gi, lp_), 'backward scan: `%s`' % norm(lp_.iter))
+    # the matches collected first (`[i for i, out in enumerate(...vout) if <match>]`): which of them is handed back
+    for n in ast.walk(gi.node):
+        if isinstance(n, ast.ListComp) and len(n.generators) == 1 and n.generators[0].ifs and 'vout' in norm(n.generators[0].iter):
+            holder = None
+            par = getattr(n, '_parent', None)
+            if isinstance(par, ast.Assign) and len(par.targets) == 1 and isinstance(par.targets[0], ast.Name):
+                holder = par.targets[0].id
+            picks = [x for x in ast.walk(gi.node) if isinstance(x, ast.Subscript) and not isinstance(x.slice, ast.Slice)
+                     and ((holder and norm(x.value) == holder) or x.value is n)]
+            fwd_iter = norm(n.generators[0].iter) in ('enumerate(self.vtx[0].vout)', 'range(len(self.vtx[0].vout))', 'range(0, len(self.vtx[0].vout))')
+            for x in picks:
+                k_ = repo.fold(x.slice, gi.module)
+                if fwd_iter and k_ == -1:
+                    r.ok('commitment-index:last-match', common.site_of(gi, x), 'the last collected match is returned')
+                elif fwd_iter and k_ == 0:
+                    r.violated('commitment-index:last-match', common.site_of(gi, x), 'of the collected matches the first one is handed back (`%s`); BIP141: if several outputs match, '
+                               'the one with the highest index is the commitment' % norm(x), sure=True)
+                else:
+                    r.undecided('commitment-index:last-match', common.site_of(gi, x), 'which collected match `%s` selects is not decided' % norm(x))
+            if not picks:
+                r.undecided('commitment-index:last-match', common.site_of(gi, n), 'the collected matches are not indexed')
     loops = [norm(n.iter) for n in ast.walk(gi.node) if isinstance(n, (ast.For, ast.comprehension))]
     if any(l_ == 'enumerate(self.vtx[0].vout)' for l_ in loops):
         r.ok('commitment-index:coinbase-outputs', gi.site, 'searched in the coinbase outputs, last match wins')
